@@ -153,6 +153,9 @@ theorem flatten_core {σ : String → Nat} (s : Shape) (out : Option Shape) (axi
   have hl := admits_length hs
   have hnn : ¬ ((axis : Int) < 0) := by omega
   simp only [flattenTarget, Option.map_some, hnn, if_false] at h
+  by_cases hz : hasStaticZero (some s) = true
+  · rw [if_pos hz] at h; cases h
+  rw [if_neg hz] at h
   have good := flat_phase3_good (σ := σ) s l hs hax
     (flat_phase2_good out hout (flat_phase1_good axis s.length l hl.symm hax))
   generalize flatPhase3 (some s) (axis : Int) (flatPhase2 out (flatPhase1 (axis : Int) (some (s.length : Int)))) = ns at h good
@@ -178,5 +181,41 @@ theorem flatten_core {σ : String → Nat} (s : Shape) (out : Option Shape) (axi
     · exact reshape2_lit l _ _ hP0 hP1 hp
     · exact reshape2_zero_neg l _ _ hP0 hP1 hp (h0 h1)
     · exact reshape2_zero_lit l _ _ hP0 hP1 hp (h0 h1)
+
+/-- the rule fires only on inputs without a static zero dim (commit 02f546a) -/
+theorem flatten_fires_no_static_zero (s : Shape) (out : Option Shape) (axisAttr : Int) (tgt : List Int)
+    (h : flattenTarget (some s) out axisAttr = some tgt) : Dim.known 0 ∉ s := by
+  intro hm
+  have hz : hasStaticZero (some s) = true := by
+    simp only [hasStaticZero, List.any_eq_true, decide_eq_true_eq]
+    exact ⟨_, hm, rfl⟩
+  simp only [flattenTarget] at h
+  rw [if_pos hz] at h; cases h
+
+/-- no static zero, no unnamed dim, every symbol positive ⇒ every run-time dim positive -/
+theorem pos_of_symbols_pos {σ : String → Nat} : ∀ {s : Shape} {l : List Int}, Admits σ s l →
+    Dim.known 0 ∉ s → hasUnknown s = false → (∀ d ∈ l, 0 ≤ d) → (∀ a, Dim.sym a ∈ s → 0 < σ a) → ∀ v ∈ l, 0 < v
+  | [], [], _, _, _, _, _ => by intro v hv; simp only [List.not_mem_nil] at hv
+  | [], _ :: _, h, _, _, _, _ => by simp only [Admits] at h
+  | _ :: _, [], h, _, _, _, _ => by simp only [Admits] at h
+  | d :: s, w :: l, h, hz, hu, hn, hs => by
+    simp only [Admits] at h
+    simp only [hasUnknown, List.any_cons, Bool.or_eq_false_iff] at hu
+    intro v hv
+    simp only [List.mem_cons] at hv
+    rcases hv with rfl | hv
+    · cases d with
+      | known n =>
+        simp only [Dim.Admits] at h
+        have h0 : n ≠ 0 := fun e => hz (by subst e; exact List.mem_cons_self ..)
+        have := hn v (List.mem_cons_self ..)
+        omega
+      | sym a =>
+        simp only [Dim.Admits] at h
+        have := hs a (List.mem_cons_self ..)
+        omega
+      | unknown => simp only [Dim.isUnknown] at hu; cases hu.1
+    · exact pos_of_symbols_pos h.2 (fun hm => hz (List.mem_cons_of_mem _ hm)) (by simpa only [hasUnknown] using hu.2)
+        (fun d hd => hn d (List.mem_cons_of_mem _ hd)) (fun a ha => hs a (List.mem_cons_of_mem _ ha)) v hv
 
 end OV.C09
